@@ -512,13 +512,14 @@ def parse_ground(e, sx, sy):
 def decode(code):
     return {"model_G_bad": bool(code & 1), "model_L_bad": bool(code & 2), "spec_bad": bool(code & 4),
             "G_ne_z3": bool(code & 8), "L_ne_z3": bool(code & 16), "unmod_G": bool(code & 32),
-            "unmod_L": bool(code & 64), "spec_none": bool(code & 128), "clsG": (code >> 8) & 255, "clsL": (code >> 16) & 255}
+            "unmod_L": bool(code & 64), "spec_none": bool(code & 128), "clsG": (code >> 8) & 255, "clsL": (code >> 16) & 255,
+            "z3path_G": bool(code & (1 << 24)), "z3path_L": bool(code & (1 << 25))}
 
 
 def run(run):
     rng = random.Random(run.seed)
     thorough = run.tier == "thorough"
-    n_atoms = 12000 if thorough else 1200
+    n_atoms = 8000 if thorough else 1200
     run.cov["rule"] = ("atoms generated type-directed (Bool/Int/String/RegLan) from SMT-LIB text over every operator of "
                        "SmtAst.v, depth <= 4, literals and variable instantiations from a nasty pool (empty, newline, quote, "
                        "backslash, non-ASCII, > U+00FF, signed/padded numerals, class metacharacters), negative values via (- 0 n) and "
@@ -549,12 +550,12 @@ def run(run):
         r = run_case(e, sx, sy, with_eval=(rng.random() < 0.7))
         records.append(r)
     # long numerals: str.to_int beyond 2^53 with comparisons / equality / mod / arithmetic
-    n_num = 1500 if thorough else 170
+    n_num = 800 if thorough else 170
     for i in range(n_num):
         e, sx, sy = gen_numeric(rng)
         r = run_case(e, sx, sy); r["stream"] = "numeric"; records.append(r)
     # stateful stream: look-alike deep atoms with different verdicts judged one after the other in THIS process
-    n_fam = 200 if thorough else 26
+    n_fam = 120 if thorough else 26
     collisions, kinds = 0, {}
     for f in range(n_fam):
         kind, seq = gen_deep_family(rng)
@@ -598,6 +599,7 @@ def run(run):
 
     if codes is not None:
         cls_hist, viol, corr, spec_bad, unm = {}, [], [], [], 0
+        z3_unknown_fallback = 0
         known_seen = {}
         for r, c in zip(records, codes):
             d = decode(c); r["code"] = d
@@ -607,17 +609,24 @@ def run(run):
             pub["classes"] = [CLASS_NAMES[d["clsG"]], CLASS_NAMES[d["clsL"]]]
             if d["spec_bad"]:
                 spec_bad.append(pub)
-            if d["model_G_bad"] or d["model_L_bad"]:
-                corr.append(dict(pub, which=("is_valid" if d["model_G_bad"] else "evaluate")))
-            for ne, cls, entry in ((d["G_ne_z3"], d["clsG"], "is_valid"), (d["L_ne_z3"], d["clsL"], "evaluate")):
-                if not ne or r["z3"] == 0:
+            # ISLa's own Z3 call (500 ms budget, fall-back of the fast path) answered `unknown`: that IS Z3's verdict
+            # for this call; tolerated only where the model says the verdict comes from that fall-back
+            tol_G = d["z3path_G"] and r["is_valid"] == ("ok", "UU")
+            tol_L = d["z3path_L"] and r["evaluate"] == ("ok", "UU")
+            z3_unknown_fallback += int(tol_G) + int(tol_L)
+            if (d["model_G_bad"] and not tol_G) or (d["model_L_bad"] and not tol_L):
+                corr.append(dict(pub, which=("is_valid" if d["model_G_bad"] and not tol_G else "evaluate")))
+            for ne, cls, entry, tol in ((d["G_ne_z3"], d["clsG"], "is_valid", tol_G), (d["L_ne_z3"], d["clsL"], "evaluate", tol_L)):
+                if not ne or r["z3"] == 0 or tol:
                     continue
+                r.setdefault("diverges", []).append(entry)
                 if cls == 0:
                     viol.append(dict(pub, entry=entry))
                 elif cls not in EXCLUDED_BY_PROPERTY:
                     known_seen[CLASS_NAMES[cls]] = known_seen.get(CLASS_NAMES[cls], 0) + 1
         run.cov["class_histogram"] = cls_hist
         run.cov["unmodelled_cases"] = unm
+        run.cov["z3_fallback_answered_unknown"] = z3_unknown_fallback
         run.cov["divergences_in_known_classes"] = known_seen
         run.cov["disagreements_checked"] = len(corr) + len(viol) + len(spec_bad)
         run.cov["agreeing_class_cases"] = cls_hist.get("agree", 0)
@@ -636,10 +645,10 @@ def run(run):
         recorded = {ent["class"] for ent in lib.known_findings("C05") if ent.get("status") == "open"}
         unrecorded = sorted(k for k in known_seen if k not in recorded)
         if unrecorded:
-            w = next(r for r, c in zip(records, codes)
-                     if (decode(c)["G_ne_z3"] and CLASS_NAMES[decode(c)["clsG"]] in unrecorded))
+            w = next(r for r in records if r.get("diverges") and
+                     (CLASS_NAMES[r["code"]["clsG"]] in unrecorded or CLASS_NAMES[r["code"]["clsL"]] in unrecorded))
             run.violation({"kind": "divergence in a class that has no open known-findings entry", "classes": unrecorded,
-                           "witness": {k: w[k] for k in ("atom", "x", "y", "ground", "is_valid", "evaluate", "z3")}})
+                           "witness": {k: w[k] for k in ("atom", "x", "y", "ground", "is_valid", "evaluate", "z3", "diverges")}})
         if spec_bad:
             spec_bad.sort(key=lambda p: len(p["atom"]))
             run.violation({"kind": "SPEC MODEL BUG: Smt/SmtSem.v disagrees with the real Z3 (not a defect of ISLa)",
